@@ -8,7 +8,8 @@ this module consumes exactly that JSON (after ``json.loads``):
   expression  {"k": tag, ...}           tags / fields as in Expr.tla: num(v) bool(val) var(name) const(name)
               neg abs not (a) | add sub mul div pow floordiv mod (a, b) | min max and or (args) |
               cmp(ops, args) | ite(c, a, b) | call(name, args) | fn(name, args)
-  statement   {"k": "assign", "name", "e"} | {"k": "ret", "e"} | {"k": "if", "e", "body", "orelse"}
+  statement   {"k": "assign", "name", "e"} | {"k": "ret", "e"} | {"k": "if", "e", "body", "orelse"} |
+              {"k": "aug", "name", "op", "e"} | {"k": "while", "e", "body"} | {"k": "for", "name", "e", "body"}
   function    {"k": "fn", "params": [...], "body": [...]}
 
 Rendering (spec -> Python source):
@@ -149,6 +150,14 @@ def body_lines(body: list, style: Style = PLAIN, indent: int = 1, elif_ok: bool 
             out.append(f"{pad}{s['name']} = {_strip(expr_src(s['e'], style))}")
         elif k == "ret":
             out.append(f"{pad}return {_strip(expr_src(s['e'], style))}")
+        elif k == "aug":
+            out.append(f"{pad}{s['name']} {BIN_SYM[s['op']]}= {_strip(expr_src(s['e'], style))}")
+        elif k == "while":
+            out.append(f"{pad}while {_strip(expr_src(s['e'], style))}:")
+            out += body_lines(s["body"], style, indent + 1, elif_ok) or [f"{pad}    pass"]
+        elif k == "for":
+            out.append(f"{pad}for {s['name']} in range({_strip(expr_src(s['e'], style))}):")
+            out += body_lines(s["body"], style, indent + 1, elif_ok) or [f"{pad}    pass"]
         elif k == "if":
             kw = "if"
             cur = s
@@ -216,7 +225,7 @@ def py_outcome(fn, args) -> dict:
     """Call ``fn(*args)`` and classify like PyFn.Run: ret / none / err."""
     try:
         v = fn(*args)
-    except (ZeroDivisionError, NameError, TypeError, ValueError, OverflowError) as e:  # UnboundLocalError is a NameError
+    except Exception as e:  # noqa: BLE001  ZeroDivisionError, UnboundLocalError, TypeError ...: Python raises
         return {"st": "err", "v": UNDEF, "exc": type(e).__name__}
     if v is None:
         return {"st": "none", "v": UNDEF}
